@@ -72,12 +72,12 @@ func magnitudeOf(g gm.G) float64 {
 
 type C14Case struct {
 	OneCase
-	RotSeed  []int  `json:"rot_seed"`
-	Reverse  []bool `json:"reverse"`
-	PermSeed []int  `json:"perm_seed"`
-	TX, TY   int    `json:"tx"`
+	RotSeed  []int      `json:"rot_seed"`
+	Reverse  []bool     `json:"reverse"`
+	PermSeed []int      `json:"perm_seed"`
+	TX, TY   int        `json:"tx"`
 	T        [6]float64 `json:"t"` // affine transform for Area(WithTransform)
-	ZMct     int    `json:"zm_ct"`
+	ZMct     int        `json:"zm_ct"`
 }
 
 func c14Gen(t *rapid.T, cx *h.Ctx) C14Case {
@@ -286,8 +286,8 @@ func c14ConcreteCentroid(g geom.Geometry, x, y float64, ok bool, tol float64, de
 
 func TestC14(t *testing.T) {
 	h.Run(t, h.Prop[C14Case]{
-		ID:   "C14",
-		Rule: "cases = one valid geometry of any of the 7 types (polygons with holes touching shells/each other, multi-geometries with empty members, collections with pairwise disjoint members of mixed dimension, nested) traced on a triangulated integer grid and mapped by an injective integer map (lattice family, 3 in 4) or additionally by a well-conditioned float affine map with scale 1e-3..1e6 (float family), paired with a representation change (ring start, direction, hole/member order, Z/M coordinate type), an integer translation and an integer affine transform. Oracles: exact area as the sum of slab trapezoids (cross-checked with the exact shoelace value), exact length / length-weighted centroid at 200 bits, exact area-weighted centroid and point average in rational arithmetic, dimension selection ignoring empty members. Checks: Area, Area(SignedArea) after ForceCCW/ForceCW and under Reverse, Area(WithTransform f) = TransformXY(f).Area() = area x |det f|, Length, Centroid on Geometry and the concrete type; invariance under the representation change, Reverse, ForceCW/CCW; translation invariance/equivariance; additivity over members. Tolerances 1e-9 x magnitude (squared for area). non-trivial = a polygon with a hole, or >= 2 members of the top dimension, or a mixed-dimension collection",
+		ID:          "C14",
+		Rule:        "cases = one valid geometry of any of the 7 types (polygons with holes touching shells/each other, multi-geometries with empty members, collections with pairwise disjoint members of mixed dimension, nested) traced on a triangulated integer grid and mapped by an injective integer map (lattice family, 3 in 4) or additionally by a well-conditioned float affine map with scale 1e-3..1e6 (float family), paired with a representation change (ring start, direction, hole/member order, Z/M coordinate type), an integer translation and an integer affine transform. Oracles: exact area as the sum of slab trapezoids (cross-checked with the exact shoelace value), exact length / length-weighted centroid at 200 bits, exact area-weighted centroid and point average in rational arithmetic, dimension selection ignoring empty members. Checks: Area, Area(SignedArea) after ForceCCW/ForceCW and under Reverse, Area(WithTransform f) = TransformXY(f).Area() = area x |det f|, Length, Centroid on Geometry and the concrete type; invariance under the representation change, Reverse, ForceCW/CCW; translation invariance/equivariance; additivity over members. Tolerances 1e-9 x magnitude (squared for area). non-trivial = a polygon with a hole, or >= 2 members of the top dimension, or a mixed-dimension collection",
 		Assumptions: []string{"exact kernel (internal/exact)", "centre of mass of a MultiPoint counts repeated points with multiplicity"},
 		Gen:         c14Gen,
 		Check:       c14Check,
